@@ -25,7 +25,7 @@ native_unit("stark_native", "examples", "examples", "native/stark_bounded.rs", [
             "NATIVE EXECUTION, not a proof: 6 example computations (single- and multi-segment) x 22 option sets (2 extensions x 5 FRI schedules x grinding {0, 9} + 2) over the 128-bit field; bit flips on 2 small proofs x 4 option sets: every 5th bit (quick) / every bit (thorough)",
             timeout=2400)
 
-native_unit("lagrange_native", "winterfell", "winterfell", "native/lagrange_bounded.rs", ["C04", "C03", "C06", "C12"],
+native_unit("lagrange_native", "winterfell", "winterfell", "native/lagrange_bounded.rs", ["C04", "C03", "C06", "C12", "C17"],
             ["Prover::generate_proof (multi-segment + Lagrange kernel / GKR path)", "verifier::verify / perform_verification", "Proof::to_bytes / from_bytes", "VerifierChannel::new", "ProverChannel", "GkrVerifier plumbing", "LagrangeKernel constraints"],
             "with a Lagrange-kernel column, 1..3 auxiliary random elements and an absorbed public input: every honest proof of the grid is accepted after a serialization round trip that leaves it unchanged (prover and verifier draw GKR randomness, auxiliary randomness and all later challenges in the same order); proofs are refused for another public input; every tested damaged proof (bit flips, byte extremes, truncations) is refused and nothing panics; both sides' recorded coin operations equal the required transcript (absorbed values read back from the proof, identical challenge values); proofs crafted by a malicious prover for query counts at and beyond the LDE domain size are answered without a panic; structured damage (every length-prefixed component of commitments / queries / OOD frame / FRI proof shortened, lengthened, emptied; FRI layers removed, duplicated, swapped; GKR proof added, removed, resized; Lagrange frame row count changed; unique-query count off by one with and without extra rows) is refused without a panic",
             "NATIVE EXECUTION, not a proof: 64-bit field x {no, quadratic, cubic} extension x 5 (trace length, FRI schedule) pairs x aux rands {1,2,3} x 2 (queries, blowup, grinding) sets x {Blake3_256, Rp64_256}; 3 trace shapes (single-segment, auxiliary, auxiliary + Lagrange kernel); damage on the first 10 resp. 2 configurations; 36 crafted option sets: every 5th bit (quick) / every bit (thorough)",
